@@ -279,6 +279,16 @@ func TestBlockTemplate(t *testing.T) {
 							t.Fatalf("%v", err)
 						}
 					}
+					// the success clause is about transactions admitted on the CURRENT chain: a pooled
+					// transaction whose relative lock counted from a coin that the reorganisation
+					// un-confirmed was admitted on another chain (that btcd keeps it pooled is C10's
+					// listed finding) - it is taken out so that the precondition holds
+					for _, d := range e.PoolTxs() {
+						if pe.RelLockLostItsCoin(d.Tx.MsgTx(), tip.Utxo, e.Tip().Utxo) {
+							e.Pool.RemoveTransaction(d.Tx, true)
+							recTmpl.Count("precondition:removed-after-reorg", 1)
+						}
+					}
 					s.registerChainCoins()
 					s.reorged = true
 					s.hist = append(s.hist, "reorganised 1 deep")
